@@ -89,12 +89,23 @@ class World:
         self.first = []
         self.gid = {}            # Operator -> global id
         self._segs = segs
+        style = (len(pipes) + sum(len(ps) for _, d in pipes for ps in d)) % 3
         for k, (prio, dag) in enumerate(pipes):
             p = Pipeline(f'p{k + 1}', PRIO[prio])
             self.first.append(len(self.ops))
             local = []
             for i, parents in enumerate(dag):
-                op = p.new_operator([local[j] for j in parents] if parents else None)
+                # the parents are handed over as a list, a one-shot generator or a tuple (chosen by the shape of the
+                # workload, so that a replay builds it the same way): add_node must not care
+                if not parents:
+                    pl = None
+                elif style == 1:
+                    pl = (local[j] for j in parents)
+                elif style == 2:
+                    pl = tuple(local[j] for j in parents)
+                else:
+                    pl = [local[j] for j in parents]
+                op = p.new_operator(pl)
                 local.append(op)
                 self.gid[op] = len(self.ops)
                 self.ops.append(op)
